@@ -9,6 +9,7 @@ Driver commands of the codec work-package (C02–C05):
 -/
 import EngineModel.Driver.Cmds.Core
 import EngineModel.Impl.Zlib
+import EngineModel.Format.V1
 
 open EngineModel EngineModel.Text
 
@@ -32,6 +33,28 @@ def reencCmd (kind : String) (payload : Bytes) : String :=
   | "v2.track" => renderRes hexBytes (Impl.V2.decodeTrack payload >>= fun p => Impl.V2.encodeTrack p.1 p.2)
   | _ => "bad-op kind"
 
+/-- Spec encoders / decoders of all eleven kinds (`senc`, `sdec`). -/
+def sencCmd (kind : String) (toks : List String) : String :=
+  let r (o : Option Bytes) : String := match o with | some b => "ok " ++ hexBytes b | none => "reject"
+  match kind with
+  | "v1.beat" => match runP pBeat1 toks with | some v => r (V1.encodeBeat v) | none => "bad-op value"
+  | "v1.cues" => match runP pCues1 toks with | some v => r (V1.encodeCues v) | none => "bad-op value"
+  | "v1.loops" => match runP pLoops1 toks with | some v => r (V1.encodeLoops v) | none => "bad-op value"
+  | "v1.ovw" => match runP pWave toks with | some v => r (V1.encodeOvw v) | none => "bad-op value"
+  | "v1.hires" => match runP pWave toks with | some v => r (V1.encodeHires v) | none => "bad-op value"
+  | "v1.track" => match runP pTrack1 toks with | some v => r (V1.encodeTrack v) | none => "bad-op value"
+  | _ => specEncCmd kind toks
+
+def sdecCmd (kind : String) (payload : Bytes) : String :=
+  match kind with
+  | "v1.beat" => renderSpec sBeat1 (V1.decodeBeat payload)
+  | "v1.cues" => renderSpec sCues1 (V1.decodeCues payload)
+  | "v1.loops" => renderSpec sLoops1 (V1.decodeLoops payload)
+  | "v1.ovw" => renderSpec sWave (V1.decodeOvw payload)
+  | "v1.hires" => renderSpec sWave (V1.decodeHires payload)
+  | "v1.track" => renderSpec sTrack1 (V1.decodeTrack payload)
+  | _ => specDecCmd kind payload
+
 def withHex (h : String) (f : Bytes → String) : String :=
   match parseHexBytes h with
   | some b => f b
@@ -42,6 +65,8 @@ def codecsTable (cmd : String) (args : List String) : Option String :=
   | "unz", [h] => some (withHex h fun b => renderRes hexBytes (Impl.Zlib.unz b))
   | "decz", [k, h] => some (withHex h (deczCmd k))
   | "reenc", [k, h] => some (withHex h (reencCmd k))
+  | "senc", k :: v => some (sencCmd k v)
+  | "sdec", [k, h] => some (withHex h (sdecCmd k))
   | "inf", [h] => some (withHex h fun b =>
       match Zlib.inflate b with
       | some (o, r) => "ok " ++ hexBytes o ++ " " ++ hexBytes r
